@@ -37,6 +37,9 @@ impl TwoFloat {
     /// assert!(b.powi(3) - a < 1e-16);
     /// ```
     pub fn cbrt(self) -> Self {
+        if self.hi == 0.0 && self.lo == 0.0 {
+            return Self { hi: 0.0, lo: 0.0 };
+        }
         let mut x = Self::from(libm::cbrt(self.hi));
         let mut x2 = x * x;
         x -= (x2 * x - self) / (3.0 * x2);
